@@ -119,6 +119,29 @@ func (f *failSeekReader) Seek(off int64, whence int) (int64, error) {
 	return int64(f.pos), nil
 }
 
+// dataErrReader returns io.EOF together with the last bytes (as io.Reader permits and testing/iotest.DataErrReader does)
+type dataErrReader struct {
+	b   []byte
+	pos int
+	k   int // bytes per Read
+}
+
+func (d *dataErrReader) Read(p []byte) (int, error) {
+	n := d.k
+	if n > len(p) {
+		n = len(p)
+	}
+	if n > len(d.b)-d.pos {
+		n = len(d.b) - d.pos
+	}
+	copy(p, d.b[d.pos:d.pos+n])
+	d.pos += n
+	if d.pos >= len(d.b) {
+		return n, io.EOF
+	}
+	return n, nil
+}
+
 // plainReader hides every optional interface of the inner reader
 type plainReader struct{ r io.Reader }
 
@@ -138,6 +161,12 @@ func makeReader(kind string, stream []byte, sched []int) io.Reader {
 		return &chunkReader{b: stream, sched: sched}
 	case "chunkseek":
 		return &chunkSeekReader{chunkReader{b: stream, sched: sched}}
+	case "dataerr":
+		k := 1 << 20
+		if len(sched) > 0 {
+			k = sched[0]
+		}
+		return &dataErrReader{b: stream, k: k}
 	}
 	fatal("unknown reader kind %q", kind)
 	return nil
@@ -434,6 +463,14 @@ func runMerge(sc *streamScenario, vs []variantSpec, rec *recorder) {
 					if rg.intn(2) == 0 {
 						b[1] |= 0x80
 					}
+					s = append(s, b...)
+				case "badaf": // an adaptation field that announces optional parts running past the packet: the packet cannot be parsed
+					b := append([]byte(nil), pk(i)...)
+					b[3] = b[3]&0xcf | 0x30
+					b[4] = 183
+					b[5] = 0x1f
+					copy(b[6:], rg.bytes(10))
+					b[186], b[187] = 0xff, 200
 					s = append(s, b...)
 				default:
 					fatal("unknown corruption mode %q", v.Mode)
@@ -764,10 +801,54 @@ func runReader(sc *streamScenario, rec *recorder, level int) {
 		add([]int{188, 189, 190, 191, 192}[j%5], true, "bufiochunk", s, "random")
 		add([]int{188, 192}[j%2], true, "chunk", s, "random")
 	}
+	// readers that deliver the final bytes together with io.EOF: whole-packet reads, one big read, odd sizes
+	for _, k := range []int{188, 376, 1 << 20, 100, 189, 1} {
+		add(188, false, "dataerr", []int{k}, fmt.Sprintf("dataerr%d", k))
+		add(192, false, "dataerr", []int{k + 4}, fmt.Sprintf("dataerr%d", k+4))
+	}
+	// a capture cut just inside a packet: n whole packets plus 1..4 (and more) bytes of the next, explicit and auto-detected
+	trunc := map[string][]byte{}
+	for _, whole := range []int{1, 2, len(bs.pkts) - 1} {
+		for _, extra := range []int{1, 2, 3, 4, 5, 100, 187} {
+			if whole < 1 || whole >= len(bs.pkts) {
+				continue
+			}
+			name := fmt.Sprintf("cut%d+%d", whole, extra)
+			trunc[name] = bs.bytes[:whole*188+extra]
+			for _, rd := range []string{"bytes", "bufio", "chunkseek"} {
+				cfgs = append(cfgs, readerCfg{188, true, rd, []int{97}, name})
+			}
+		}
+	}
+	refTrunc := map[string][2][]string{}
 	for r, c := range cfgs {
 		stream := frames[c.size]
+		if t, ok := trunc[c.desc]; ok {
+			// truncated input: the reference is the explicit-size run over the same truncated bytes
+			if _, done := refTrunc[c.desc]; !done {
+				var pk, dd []string
+				dmx := newDemuxer(bytes.NewReader(t), demuxRun{})
+				for k := 0; k < bound; k++ {
+					p, err := dmx.NextPacket()
+					if err != nil {
+						break
+					}
+					pk = append(pk, hdrDigest(p))
+				}
+				dmx = newDemuxer(bytes.NewReader(t), demuxRun{})
+				drainData(dmx, bound, func() int { return 0 }, func(e M) {
+					if e["ev"] == "deliver" {
+						dd = append(dd, e["dg"].(string))
+					}
+				})
+				refTrunc[c.desc] = [2][]string{pk, dd}
+				rec.ev(M{"ev": "truncref", "name": c.desc, "P": orEmpty(pk), "D": orEmpty(dd)})
+			}
+			stream = t
+		}
 		// auto-detection domain: two packets, and no sync-like byte in the tail of the first frame (DESIGN.md 7)
-		if c.auto {
+		_, isTrunc := trunc[c.desc]
+		if c.auto && !isTrunc {
 			ok := len(bs.pkts) >= 2
 			for i := 188; i < c.size && ok; i++ {
 				if stream[i] == 0x47 {
@@ -781,6 +862,9 @@ func runReader(sc *streamScenario, rec *recorder, level int) {
 		class := "ref"
 		if c.auto && (c.reader == "plain" || c.reader == "chunk") {
 			class = "plainauto"
+		}
+		if isTrunc {
+			class = "trunc"
 		}
 		run := demuxRun{PSize: c.size}
 		if c.auto {
@@ -813,6 +897,13 @@ func runReader(sc *streamScenario, rec *recorder, level int) {
 			rec.ev(e)
 		})
 	}
+}
+
+func orEmpty(s []string) []string {
+	if s == nil {
+		return []string{}
+	}
+	return s
 }
 
 func newBufio(r io.Reader) *bufio.Reader { return bufio.NewReaderSize(r, 4096) }
